@@ -60,13 +60,17 @@ def srcToJson (s : SrcImg) : Json := Json.arr #[Json.str s.cls, Json.str s.inst,
 
 def parseSeg (j : Json) : Except String Seg := do
   let frames ← (← getArr j "frames").toList.mapM (fun f => do
-    let src ← match f.getObjVal? "src" with
+    let drv ← match f.getObjVal? "drv" with
       | .error _ => pure none
       | .ok .null => pure none
       | .ok v => do
         let a ← v.getArr?
-        some <$> a.toList.mapM (fun x => do pure (SrcImg.mk (← getStr x "cls") (← getStr x "inst") (← optIntList x "frames")))
-    pure (FrameInfo.mk (← getInt f "segment") src))
+        some <$> a.toList.mapM (fun d => match d with
+          | .null => pure none
+          | d => do
+            let l ← d.getArr?
+            some <$> l.toList.mapM (fun x => do pure (SrcImg.mk (← getStr x "cls") (← getStr x "inst") (← optIntList x "frames"))))
+    pure (FrameInfo.mk (← getInt f "segment") drv))
   let refser ← getStr j "refser"
   let refInst ← match j.getObjVal? "ref_instances" with
     | .error _ => pure none
